@@ -192,7 +192,7 @@ func genC15(r *rand.Rand, tier string, st *Stats) []Case {
 		progs = append(progs, prog{s, stdTexts, "corpus"})
 	}
 	st.Counts["corpus-sources"] = len(progs)
-	for i := 0; i < sizes(tier, 120, 1500); i++ {
+	for i := 0; i < sizes(tier, 120, 600); i++ {
 		p := genValid(r)
 		st.addFeatures(p.Features)
 		progs = append(progs, prog{p.Src, []string{GenText(r, p.Lits, 16), GenText(r, p.Lits, 24)}, "gen"})
@@ -227,8 +227,9 @@ func genC15(r *rand.Rand, tier string, st *Stats) []Case {
 		st.Counts["programs"]++
 		bs := boundaries(spans)
 		pick := bs
-		perProg := sizes(tier, 5, 1<<30)
-		if p.kind == "site" {
+		// quick: sampled gaps; thorough: every gap of every corpus program, 12 sampled gaps of generated ones
+		perProg := sizes(tier, 5, 12)
+		if p.kind == "site" || (p.kind == "corpus" && tier == "thorough") {
 			perProg = 1 << 30
 		}
 		if len(pick) > perProg {
